@@ -147,6 +147,11 @@ class ConsistentLeg(object):
                 bad = _cmp_dialect(db.dialect, want_o, "FeatureDB.dialect reopened after update() with differently written text")
                 if bad:
                     return bad
+                db.conn.close()
+                db = gffutils.FeatureDB(dbfn, keep_order=True)  # and opening it did not change what the next opening sees
+                bad = _cmp_dialect(db.dialect, want_o, "FeatureDB.dialect reopened a second time after update()")
+                if bad:
+                    return bad
                 db.delete("zz_later", make_backup=False)
         # routing
         feats = list(db.all_features())
